@@ -150,9 +150,25 @@ def observed_tokens(tokens):
     return out
 
 
+def shape(bs):
+    """The lexeme with digits -> d and letters other than e/E/u -> a (for signatures)."""
+    out = []
+    for ch in bytes(bs)[:12]:
+        c = chr(ch)
+        if c.isdigit():
+            c = "d"
+        elif c.isalpha() and c not in "eEu":
+            c = "a"
+        elif ch >= 128 or ch < 32:
+            c = "?"
+        if not (out and out[-1] == c and c in "da?"):
+            out.append(c)
+    return "".join(out)
+
+
 def compare(case, r):
     """case: specification case {b, st, cls, at, t}; r: harness result.
-    Returns None (agreement) or (class, tokenkind_or_errorclass, text)."""
+    Returns None (agreement) or (class, tokenkind_or_errorclass, text, detail)."""
     bs = case["b"]
     st = case["st"]
     a = r["all"]
@@ -163,7 +179,7 @@ def compare(case, r):
             # which expected token contains the error position
             at = next((k for (k, s, e2, _) in exp if s <= e["start"] < e2), "EndOfFile")
             return ("rejects-valid", at,
-                    f"{show(bs)}: the grammar gives {len(exp)} tokens, lexer fails with {e}")
+                    f"{show(bs)}: the grammar gives {len(exp)} tokens, lexer fails with {e}", e["kind"])
         obs = observed_tokens(a["tokens"])
         if obs != exp:
             for k in range(max(len(obs), len(exp))):
@@ -176,12 +192,21 @@ def compare(case, r):
                         cls = "wrong-span"
                     else:
                         cls = "wrong-value"
+                    detail = ""
+                    if cls == "wrong-value" and isinstance(x[3], list) and isinstance(o[3], list):
+                        j = next((j for j in range(min(len(x[3]), len(o[3]))) if x[3][j] != o[3][j]), None)
+                        if j is None:
+                            detail = "length"
+                        elif x[3][j] == 0xFFFD:
+                            detail = "replacement-character-expected"
+                        else:
+                            detail = "other-character"
                     return (cls, (x or o)[0],
-                            f"{show(bs)}: token {k} is {o}, the grammar says {x}")
+                            f"{show(bs)}: token {k} is {o}, the grammar says {x}", detail)
         w = r["nows"]
         if "error" in w or observed_tokens(w["tokens"]) != [t for t in exp if t[0] not in TRIVIA]:
             return ("nows-mismatch", "stream",
-                    f"{show(bs)}: lex_to_eof(false) is not the expected stream without whitespace/comments")
+                    f"{show(bs)}: lex_to_eof(false) is not the expected stream without whitespace/comments", "")
         return None
     if st == "err":
         cls = case["cls"]
@@ -190,16 +215,16 @@ def compare(case, r):
             at = next((t for t in obs if t[1] <= case["at"] < t[2]), obs[-1])
             return ("accepts-invalid", cls,
                     f"{show(bs)}: no token of the grammar starts at offset {case['at']} ({cls}), "
-                    f"lexer yields {at} there ({len(obs)} tokens)")
+                    f"lexer yields {at} there ({len(obs)} tokens)", shape(bs[at[1]:at[2]]))
         e = a["error"]
         if e["kind"] not in ERR_CLASS[cls]:
             return ("error-class", cls,
-                    f"{show(bs)}: failing token is a {cls} at offset {case['at']}, lexer reports {e}")
+                    f"{show(bs)}: failing token is a {cls} at offset {case['at']}, lexer reports {e}", e["kind"])
         if e["start"] < case["at"]:
             return ("error-location", cls,
-                    f"{show(bs)}: the tokens before offset {case['at']} are valid, error located at {e}")
+                    f"{show(bs)}: the tokens before offset {case['at']} are valid, error located at {e}", e["kind"])
         if r["nows"] != a:
-            return ("nows-mismatch", "error", f"{show(bs)}: the two streams fail differently")
+            return ("nows-mismatch", "error", f"{show(bs)}: the two streams fail differently", "")
         return None
     return None   # outside
 
